@@ -74,6 +74,7 @@ fn enc_report(w: &mut W, r: &CaseReport) {
     w.u8(r.nontrivial as u8 | ((r.dup_of_enum as u8) << 1));
     w.u64(r.hash);
     w.u32(r.excluded_known);
+    w.u32(r.inner_evaluations);
     w.u32(r.labels.len() as u32);
     for l in &r.labels {
         w.str(l);
@@ -105,6 +106,7 @@ fn dec_report(r: &mut R) -> CaseReport {
     let fl = r.u8();
     let hash = r.u64();
     let excluded_known = r.u32();
+    let inner_evaluations = r.u32();
     let n = r.u32();
     let mut labels = Vec::new();
     for _ in 0..n {
@@ -119,6 +121,7 @@ fn dec_report(r: &mut R) -> CaseReport {
         dup_of_enum: fl & 2 != 0,
         hash,
         excluded_known,
+        inner_evaluations,
         rendering,
     }
 }
@@ -142,6 +145,7 @@ pub struct BatchAgg {
     pub labels: BTreeMap<String, u64>,
     pub samples: Vec<String>,
     pub excluded_known: u64,
+    pub inner_evaluations: u64,
 }
 
 impl BatchAgg {
@@ -149,6 +153,7 @@ impl BatchAgg {
         self.evaluated += o.evaluated;
         self.nontrivial += o.nontrivial;
         self.excluded_known += o.excluded_known;
+        self.inner_evaluations += o.inner_evaluations;
         for (k, v) in &o.known_hits {
             *self.known_hits.entry(k.clone()).or_default() += v;
         }
@@ -340,6 +345,7 @@ pub fn worker_main(prop: Box<dyn Prop>, tier: Tier) -> ! {
                     end_case();
                     agg.evaluated += 1;
                     agg.excluded_known += rep.excluded_known as u64;
+                    agg.inner_evaluations += rep.inner_evaluations as u64;
                     if rep.nontrivial {
                         agg.nontrivial += 1;
                     }
@@ -364,6 +370,7 @@ pub fn worker_main(prop: Box<dyn Prop>, tier: Tier) -> ! {
                 w.u64(agg.evaluated);
                 w.u64(agg.nontrivial);
                 w.u64(agg.excluded_known);
+                w.u64(agg.inner_evaluations);
                 w.u32(agg.known_hits.len() as u32);
                 for (k, v) in &agg.known_hits {
                     w.str(k);
@@ -481,6 +488,7 @@ impl WorkerHandle {
                         agg.evaluated = r.u64();
                         agg.nontrivial = r.u64();
                         agg.excluded_known = r.u64();
+                        agg.inner_evaluations = r.u64();
                         for _ in 0..r.u32() {
                             let k = r.str();
                             let v = r.u64();
